@@ -42,9 +42,17 @@ package history
 //@   ensures  from_db:  forall k int :: 0 <= k && k < len(ret) ==> ret[k] != nil && mem(m.db, ret[k])
 //@   ensures  active:   forall k int, s string :: 0 <= k && k < len(ret) && mem(query.Active, s) ==> odd(ret[k].Time.MTimeTracked[index(m.Cfg.TrackedStates, s)])
 //@   ensures  inactive: forall k int, s string :: 0 <= k && k < len(ret) && mem(query.Inactive, s) ==> !odd(ret[k].Time.MTimeTracked[index(m.Cfg.TrackedStates, s)])
+//@   ensures  activated:   forall k int, s string :: 0 <= k && k < len(ret) && mem(query.Activated, s) ==> odd(ret[k].Time.MTimeTracked[index(m.Cfg.TrackedStates, s)])
+//@   ensures  deactivated: forall k int, s string :: 0 <= k && k < len(ret) && mem(query.Deactivated, s) ==> !odd(ret[k].Time.MTimeTracked[index(m.Cfg.TrackedStates, s)])
 //@   ensures  limit:    limit > 0 ==> len(ret) <= limit
 //@   loop 1 invariant recs: -1 <= i && i < len(db) && (forall j int :: 0 <= j && j < len(db) ==> RecOK(m, db[j])) && m.Cfg != nil
 //@   loop 1 invariant from_db: forall k int :: 0 <= k && k < len(ret) ==> ret[k] != nil && mem(db, ret[k])
 //@   loop 1 invariant active:   forall k int, s string :: 0 <= k && k < len(ret) && mem(query.Active, s) ==> odd(ret[k].Time.MTimeTracked[index(m.Cfg.TrackedStates, s)])
 //@   loop 1 invariant inactive: forall k int, s string :: 0 <= k && k < len(ret) && mem(query.Inactive, s) ==> !odd(ret[k].Time.MTimeTracked[index(m.Cfg.TrackedStates, s)])
+//@   loop 1 invariant activated:   forall k int, s string :: 0 <= k && k < len(ret) && mem(query.Activated, s) ==> odd(ret[k].Time.MTimeTracked[index(m.Cfg.TrackedStates, s)])
+//@   loop 1 invariant deactivated: forall k int, s string :: 0 <= k && k < len(ret) && mem(query.Deactivated, s) ==> !odd(ret[k].Time.MTimeTracked[index(m.Cfg.TrackedStates, s)])
 //@   loop 1 invariant limit:    limit > 0 ==> len(ret) < limit
+//@   loop 2 invariant act: forall j int :: 0 <= j && j < idx2 ==> odd(r.Time.MTimeTracked[index(m.Cfg.TrackedStates, query.Active[j])])
+//@   loop 4 invariant ina: forall j int :: 0 <= j && j < idx4 ==> !odd(r.Time.MTimeTracked[index(m.Cfg.TrackedStates, query.Inactive[j])])
+//@   loop 3 invariant actd: forall j int :: 0 <= j && j < idx3 ==> odd(r.Time.MTimeTracked[index(m.Cfg.TrackedStates, query.Activated[j])])
+//@   loop 5 invariant dea: forall j int :: 0 <= j && j < idx5 ==> !odd(r.Time.MTimeTracked[index(m.Cfg.TrackedStates, query.Deactivated[j])])
